@@ -590,8 +590,72 @@ def _replace_node(st, old, new):
             setattr(st, fld, [R().visit(v) if isinstance(v, ast.AST) else v for v in val])
 
 
+# ---------------------------------------------------------------------------------------------- unroll loops over literal tuples
+class Unroller:
+    """`for k in ("a", "b"): body` with a literal tuple / list of constants becomes body[k := "a"]; body[k := "b"]; and
+    `getattr(x, "name")` with a constant identifier becomes `x.name`.  (No break / continue / else, the loop variable
+    is not rebound in the body and not used after the loop.)"""
+
+    def __init__(self):
+        self.count = 0
+
+    def unroll_function(self, fnode):
+        self._block(fnode.body, fnode)
+        for n in ast.walk(fnode):
+            if isinstance(n, ast.Call) and isinstance(n.func, ast.Name) and n.func.id == "getattr" and len(n.args) == 2 and not n.keywords \
+                    and isinstance(n.args[1], ast.Constant) and isinstance(n.args[1].value, str) and n.args[1].value.isidentifier():
+                n.__class__ = ast.Attribute
+                n.value, n.attr, n.ctx = n.args[0], n.args[1].value, ast.Load()
+                n._fields = ast.Attribute._fields
+                for f_ in ("func", "args", "keywords"):
+                    try:
+                        delattr(n, f_)
+                    except AttributeError:
+                        pass
+
+    def _block(self, body, fnode):
+        i = 0
+        while i < len(body):
+            st = body[i]
+            for fld in ("body", "orelse", "finalbody"):
+                blk = getattr(st, fld, None)
+                if isinstance(blk, list) and blk and isinstance(blk[0], ast.stmt) and not isinstance(st, (ast.FunctionDef, ast.AsyncFunctionDef, ast.ClassDef)):
+                    self._block(blk, fnode)
+            for h in getattr(st, "handlers", []) or []:
+                self._block(h.body, fnode)
+            if isinstance(st, ast.For) and isinstance(st.target, ast.Name) and not st.orelse and isinstance(st.iter, (ast.Tuple, ast.List)) \
+                    and 1 <= len(st.iter.elts) <= 6 and all(isinstance(e, ast.Constant) for e in st.iter.elts):
+                v = st.target.id
+                inner = [n for s_ in st.body for n in ast.walk(s_)]
+                if any(isinstance(n, (ast.Break, ast.Continue)) for n in inner) or any(isinstance(n, ast.Name) and n.id == v and isinstance(n.ctx, (ast.Store, ast.Del)) for n in inner):
+                    i += 1
+                    continue
+                after = [n for s_ in body[i + 1:] for n in ast.walk(s_) if isinstance(n, ast.Name) and n.id == v and isinstance(n.ctx, ast.Load)]
+                if after:
+                    i += 1
+                    continue
+                new = []
+                for e in st.iter.elts:
+                    class S(ast.NodeTransformer):
+                        def visit_Name(self, node, _e=e):
+                            if node.id == v and isinstance(node.ctx, ast.Load):
+                                return ast.copy_location(ast.Constant(value=_e.value), node)
+                            return node
+                    for s_ in st.body:
+                        c = S().visit(copy.deepcopy(s_))
+                        for x in ast.walk(c):
+                            if isinstance(x, ast.stmt):
+                                x._orig = getattr(s_, "_orig", getattr(s_, "lineno", None))
+                        new.append(c)
+                body[i:i + 1] = new
+                self.count += 1
+                i += len(new)
+                continue
+            i += 1
+
+
 # ---------------------------------------------------------------------------------------------- views
-VIEWS = (("inline",), ("fold",), ("inline", "fold"))
+VIEWS = (("inline",), ("fold",), ("inline", "fold"), ("unroll",), ("inline", "unroll", "fold"))
 
 
 def _functions(ix, m):
@@ -605,12 +669,12 @@ def build_view(repo, passes):
     ix = Index(repo)
     out = tempfile.mkdtemp(prefix="verif-view-")
     shutil.copytree(os.path.join(repo, PKG), os.path.join(out, PKG), ignore=shutil.ignore_patterns("__pycache__", "*.pyc"))
-    inl, fol = Inliner(ix), Folder()
+    inl, fol, unr = Inliner(ix), Folder(), Unroller()
     linemap = {}
     changed = 0
     dirty = set()
     for m in ix.modules.values():
-        before = inl.count + fol.count
+        before = inl.count + fol.count + unr.count
         for n in ast.walk(m.tree):
             if isinstance(n, ast.stmt):
                 n._orig = n.lineno
@@ -618,11 +682,15 @@ def build_view(repo, passes):
             if "inline" in passes:
                 names = _all_names(fi.node)
                 fi.node.body = inl.expand_block(fi, names, fi.node.body)
+        if "unroll" in passes:
+            for n in ast.walk(m.tree):
+                if isinstance(n, (ast.FunctionDef, ast.AsyncFunctionDef)):
+                    unr.unroll_function(n)
         if "fold" in passes:
             for n in ast.walk(m.tree):
                 if isinstance(n, (ast.FunctionDef, ast.AsyncFunctionDef)):
                     fol.fold_function(n)
-        if inl.count + fol.count != before:
+        if inl.count + fol.count + unr.count != before:
             dirty.add(m.name)
     # a private helper whose every call was inlined and that nothing else mentions any more: its statements now live in its
     # callers; the definition stays (rules may look it up by name) but findings located in it are duplicates (sa/cli.py)
@@ -657,7 +725,7 @@ def build_view(repo, passes):
         changed += 1
     with open(os.path.join(out, ".linemap.json"), "w") as f:
         json.dump(linemap, f)
-    return out, {"passes": list(passes), "modules_rewritten": changed, "helper_calls_inlined": inl.count, "locals_folded": fol.count,
+    return out, {"passes": list(passes), "modules_rewritten": changed, "helper_calls_inlined": inl.count, "locals_folded": fol.count, "loops_unrolled": unr.count,
                  "fully_inlined": sorted(fully), "inlined_into": {k: sorted(v) for k, v in inl.into.items()}, "sites": inl.sites[:40]}
 
 
